@@ -32,7 +32,7 @@ K = dict(
     ANY=0, FORK=1, START=2, EXIT=3, WAIT=4, WAITOK=5, KILLSIG=6, ACQ=7, ACQOK=8, REL=9, RGET=10, RSET=11,
     LINE=12, WRITE=13, F_KILL=14, F_RAISE=15, NEXTRET=16, MARK=17, FOPEN=18, FREAD=19, FWRITE=20, FSEEK=21,
     FCLOSE=22, FLOCK=23, FLOCKOK=24, FUNLOCK=25, ENTER=26, LEAVE=27, F_FORKFAIL=28, F_ALLOCFAIL=29, F_IO=30,
-    F_CRASHW=31, FTOUCH=32, FMKDIR=33, DEADLOCK=34, LIVELOCK=35, ALLOC=36, F_BOMB=37, CALLDONE=38,
+    F_CRASHW=31, FTOUCH=32, FMKDIR=33, DEADLOCK=34, LIVELOCK=35, ALLOC=36, F_BOMB=37, CALLDONE=38, F_ECHILD=39,
 )
 KNAME = {v: k for k, v in K.items()}
 globals().update({'K_' + k: v for k, v in K.items()})
@@ -550,6 +550,15 @@ class Sim:
         self.status[self.me] = RUNNABLE
         r = os.waitpid(pid, options)
         self.pids[s] = -pid  # reaped: never signal this pid again
+        # WAIT_ECHILD fault: the host application ignores SIGCHLD (or reaps children itself): the kernel lets waitpid block until the
+        # child is gone and then reports ECHILD - the exit status is lost
+        yc = self.ycount[self.me]
+        for i, f in self._fault_by_proc.get(self.me, ()):
+            if f['kind'] == 'WAIT_ECHILD' and not self.fired[i] and yc[K_WAIT] >= f['n']:
+                self.fired[i] = 1
+                self.log(K_F_ECHILD, s)
+                self._switch()
+                raise ChildProcessError(errno.ECHILD, 'injected: No child processes')
         self.log(K_WAITOK, s)
         self._switch()
         return r
